@@ -8,6 +8,7 @@ mod f2;
 mod framework;
 mod gatesim;
 mod gen;
+mod iso;
 mod props;
 mod ring;
 mod selftest;
@@ -94,6 +95,12 @@ fn parse_args() -> Result<Args, String> {
 }
 
 fn main() {
+    {
+        let a: Vec<String> = std::env::args().collect();
+        if a.len() == 6 && a[1] == "--child-write-graph" {
+            std::process::exit(props::c13::child_write_graph(&a[2], &a[3], a[4].parse().unwrap_or(0), a[5].parse().unwrap_or(0)));
+        }
+    }
     simcore::install_panic_hook();
     let args = match parse_args() {
         Ok(a) => a,
@@ -123,6 +130,7 @@ fn main() {
     }
     let code = match args.id.as_str() {
         "C05" => dispatch(&props::c05::C05, &env, &args),
+        "C13" => dispatch(&props::c13::C13, &env, &args),
         "C18" => dispatch(&props::c18::C18, &env, &args),
         other => {
             eprintln!("qsim: no check for property '{other}'");
